@@ -20,7 +20,8 @@ FEATURES = ["docstring", "future_import", "comments", "decorators", "nested_defs
             "import_module_runtime", "import_alias", "import_in_function", "existing_tc_block", "star_import", "import_dotted",
             "class_level_code", "module_level_code", "respelled_annotations", "wordy_annotations", "relative_import",
             "tc_import_in_try", "tc_import_in_function", "reexport_alias_import", "posonly_then_kwonly_params", "fallback_import_in_try", "latin1_source",
-            "fully_annotated_f2", "late_import_at_bottom"]
+            "fully_annotated_f2", "late_import_at_bottom", "exotic_separators",
+            "from_import_sibling_name"]
 
 
 def gen_source(feat):
@@ -42,6 +43,8 @@ def gen_source(feat):
         L.append("from typing import List, Optional")
     if "import_module_runtime" in f:
         L.append("import zshapes")
+    if "from_import_sibling_name" in f:      # another name of the module the stub will import from, used at run time: libcst
+        L.append("from zshapes import area")   # merges the stub's names INTO this statement
     if "import_alias" in f:
         L.append("from zshapes import Circle as C")
     if "relative_import" in f:
@@ -63,6 +66,12 @@ def gen_source(feat):
         L += ["COUNTER = [0]", ""]
     if "latin1_source" in f:
         L += ["LABEL = 'caf\xe9 \xfcber'", ""]
+    if "exotic_separators" in f:
+        # characters that str.splitlines() treats as line ends and the Python tokenizer does not: inside string literals (single-
+        # and triple-quoted) and in a comment; the text of the program, they must come through `apply` untouched
+        L += ["SEPS = 'a\x0cb\x1cc\x1dd\x1ee\x85f\u2028g\u2029h'  # form\x0bfeed", 'DOC = """x\x0c', 'y\u2028z"""', ""]
+        if "latin1_source" in f:       # (a latin-1 file cannot hold U+2028 / U+2029)
+            L[-4:] = [x.replace("\u2028", "").replace("\u2029", "") for x in L[-4:]]
     if "decorators" in f:
         L += ["def deco(fn):", "    @functools.wraps(fn)", "    def w(*a, **k):", "        return fn(*a, **k)", "    return w", ""]
     if "comments" in f:
@@ -74,6 +83,8 @@ def gen_source(feat):
         L.append("    from zshapes import Square")
     if "import_module_runtime" in f:
         L.append("    y = zshapes.area(x)")
+    if "from_import_sibling_name" in f:
+        L.append("    y2 = area(x)")
     if "import_alias" in f:
         L.append("    z = C()")
     if "relative_import" in f or "reexport_alias_import" in f or "fallback_import_in_try" in f:
@@ -385,8 +396,8 @@ def run_case(case):
     else:
         path = os.path.join(w["dir"], name + ".py")
     latin1 = "latin1_source" in case["features"]
-    if latin1:
-        case = dict(case, via_cli=True)           # the file's encoding only matters to the command that reads and writes the file
+    if latin1 or "exotic_separators" in case["features"]:
+        case = dict(case, via_cli=True)           # the file's encoding / raw characters only matter to the command that reads and writes the file
     with open(path, "w", encoding="latin-1" if latin1 else None) as fh:
         fh.write(src)
     importlib.invalidate_caches()
@@ -602,6 +613,16 @@ def gen_cases(pid, tier, seed):
             cases.append({"features": ["import_module_runtime", "partial_annotations", "typing_import", "wordy_annotations"], "traced": ["f2"],
                           "types": {"f2": ["int"]}, "overwrite": True, "confine": conf, "k": 0, "via_cli": True})
     plan.append({"family": "wordy annotations overwritten through the `apply` command (result shorter than the file)", "cases": len(cases) - n0})
+    # EVERY import the stub brings is a name of a module the source already imports another name from (libcst merges them
+    # into the existing statement; no whole statement is new): alone and next to each other source feature
+    n0 = len(cases)
+    for conf in confs:
+        for extra in [[]] + [[f] for f in FEATURES if f not in ("from_import_sibling_name", "latin1_source", "relative_import")]:
+            for sel in (["circle"], ["circle", "square"]):
+                traced = ["f1", "f3"] if len(sel) == 1 else ["f3", "K.s"]
+                cases.append({"features": sorted(["from_import_sibling_name"] + extra), "traced": traced, "types": {f: sel for f in traced},
+                              "overwrite": False, "confine": conf, "k": 0, "via_cli": len(extra) % 2 == 0})
+    plan.append({"family": "every new import merges into an import statement the source already has", "cases": len(cases) - n0})
     for i, c in enumerate(cases):
         c["tid"] = i + 1
     return cases, plan
